@@ -768,6 +768,10 @@ class Executor:
             ob['model'] = res['model']
             ob['inputs'] = self.model_inputs(st, res['model'])
             self.violated = True
+            try:
+                ob['alt_inputs'] = self._decisive_models(st, asserts)
+            except Exception:  # noqa: a convenience for the replay only
+                ob['alt_inputs'] = []
         if res['verdict'] not in ('sat', 'unsat'):
             ob['detail'] = res.get('verdicts')
             if self.opts.get('keep_unknown'):
@@ -780,6 +784,31 @@ class Executor:
         if self.opts.get('trace_slow'):
             print('OB', ob['verdict'], ob.get('solver'), ob['wall'], kind, msg[:90], pos, 'paths', self.paths, flush=True)
         return res['verdict']
+
+
+    def _decisive_models(self, st, asserts):
+        """A violated intermediate obligation (e.g. a wrong sticky flag handed to the rounding kernel) changes the end
+        result only for special digit patterns.  For the native replay, look for further models of the same violation in
+        which every digit the kernel will drop is zero (then the sticky flag alone decides directed roundings)."""
+        calls = st.ghost.get('cuts', ())
+        if not calls:
+            return []
+        N = calls[-1]['N']
+        if isinstance(N, int):
+            return []
+        out = []
+        M1 = 5 * (1 << 111)
+        t_end = time.time() + 25
+        for j in (4, 2, 6, 1, 3, 5, 8, 12, 20):
+            if time.time() > t_end or len(out) >= 3:
+                break
+            extra = [T.eq(T.modc(N, 10 ** j), 0), T.lt(N, M1 * 10 ** j), T.ge(N, M1 * 10 ** (j - 1))]
+            if any(e is False for e in extra):
+                continue
+            v, model = S.quick_check(list(asserts) + [e for e in extra if e is not True], 2500, want_model=True)
+            if v == 'sat':
+                out.append(self.model_inputs(st, model))
+        return out
 
     def model_inputs(self, st, model):
         out = {}
